@@ -63,11 +63,27 @@ func iffModule(kind, expr string) string {
 		return head + " container base { leaf bl { type string; } }\n augment \"/base\" { " + g + " leaf probe { type string; } }\n}"
 	case "choice":
 		return head + " choice probe { " + g + " leaf pl { type string; } }\n}"
+	case "refine":
+		return head + " grouping g { leaf probe { type string; } leaf stays { type string; } }\n uses g { refine probe { " + g + " } }\n}"
+	case "rpc":
+		return head + " rpc probe { " + g + " }\n}"
+	case "notification":
+		return head + " notification probe { " + g + " leaf nl { type string; } }\n}"
+	case "anydata":
+		return head + " anydata probe { " + g + " }\n}"
 	}
 	return head + "}"
 }
 
 func findProbe(m *meta.Module, kind string) bool {
+	switch kind {
+	case "rpc":
+		_, found := m.Actions()["probe"]
+		return found
+	case "notification":
+		_, found := m.Notifications()["probe"]
+		return found
+	}
 	var look func(h meta.HasDataDefinitions) bool
 	look = func(h meta.HasDataDefinitions) bool {
 		for _, d := range h.DataDefinitions() {
